@@ -5,6 +5,10 @@ import importlib
 import os
 import sys
 import traceback
+import warnings
+
+warnings.simplefilter('ignore')
+os.environ.setdefault('PYTHONWARNINGS', 'ignore')
 
 sys.path.insert(0, os.path.dirname(os.path.abspath(__file__)))
 import core  # noqa: E402
